@@ -67,5 +67,14 @@ func IsNil(node interface{}) bool {
 		return true
 	}
 
-	return reflect.ValueOf(node).IsNil()
+	// Only some kinds can be nil. Asking any other kind (such as a string or
+	// an int) would panic.
+	v := reflect.ValueOf(node)
+	switch v.Kind() {
+	case reflect.Chan, reflect.Func, reflect.Interface, reflect.Map,
+		reflect.Ptr, reflect.Slice, reflect.UnsafePointer:
+		return v.IsNil()
+	}
+
+	return false
 }
